@@ -150,6 +150,13 @@ def signature(pkg):
                 for op in c.eOperations:
                     out.append(('operation', c.name, op.name, tname(op.eType),
                                 [(q.name, tname(q.eType), bool(q.required)) for q in op.eParameters]))
+                    # … and the method instances get for it (the declared operation is callable as declared)
+                    if not c.abstract and not c.interface:
+                        import inspect
+                        try:
+                            out.append(('method', c.name, op.name, str(inspect.signature(getattr(c(), op.normalized_name())))))
+                        except Exception as e:
+                            out.append(('method', c.name, op.name, 'unavailable: ' + type(e).__name__))
             elif isinstance(c, E.EEnum):
                 out.append(('enum', here, c.name, [(l.name, l.value) for l in c.eLiterals]))
             else:
